@@ -6,6 +6,8 @@ import (
 	"github.com/go-task/task/v3/verifh/p08"
 	"github.com/go-task/task/v3/verifh/p09"
 	"github.com/go-task/task/v3/verifh/p10"
+	"github.com/go-task/task/v3/verifh/p15"
+	"github.com/go-task/task/v3/verifh/p16"
 	"github.com/go-task/task/v3/verifh/p19"
 	"github.com/go-task/task/v3/verifh/p20"
 )
@@ -14,6 +16,8 @@ func init() {
 	checks["C08"] = p08.Run
 	checks["C09"] = p09.Run
 	checks["C10"] = p10.Run
+	checks["C15"] = p15.Run
+	checks["C16"] = p16.Run
 	checks["C19"] = p19.Run
 	checks["C20"] = p20.Run
 }
